@@ -129,7 +129,14 @@ pub fn engine_hist(cases: Vec<Value>, out: &mut NdjsonOut) {
 
 // "cache.enter" is the first point after the event-log writer lock has been released: an actor
 // parked there has its line on disk (the model's Flush) and holds no log lock.
-const SCHED_POINTS: &[&str] = &["op.start", "log.pre", "cache.enter", "cache.exit", "api.return"];
+const SCHED_POINTS: &[&str] = &[
+    "op.start",
+    "nextseq.loaded",
+    "log.pre",
+    "cache.enter",
+    "cache.exit",
+    "api.return",
+];
 
 fn arrival_timeout() -> Duration {
     Duration::from_millis(
@@ -632,6 +639,147 @@ pub fn engine_free(rt: &tokio::runtime::Runtime, cases: Vec<Value>, out: &mut Nd
             .collect();
         let summary = log_summary(&data);
         out.write(&json!({"id": case["id"], "summary": summary, "trace": trace, "errors": errors}));
+        let _ = std::fs::remove_dir_all(&root);
+    }
+}
+
+// ---------------------------------------------------------------------------------------------
+// overtake: every append of the chosen stream kinds is delayed at log.pre until a later seq of
+// the same stream reaches the disk (or a time-out says the code's locking forbids it).  This is
+// the counterexample schedule TLC finds for an un-guarded emitter (StoreSeq, TaskGuarded = FALSE).
+
+pub fn engine_overtake(rt: &tokio::runtime::Runtime, cases: Vec<Value>, out: &mut NdjsonOut) {
+    let hub = hub();
+    for case in cases {
+        hub.reset();
+        let root = util::scratch_root().join(format!("ovt-{}", uuid::Uuid::new_v4().simple()));
+        let data = root.join("data");
+        let ws = root.join("ws");
+        std::fs::create_dir_all(&data).unwrap();
+        std::fs::create_dir_all(&ws).unwrap();
+        hub.set_record(true);
+        let kinds: Vec<String> = case["kinds"]
+            .as_array()
+            .map(|a| a.iter().filter_map(|x| x.as_str().map(str::to_string)).collect())
+            .unwrap_or_default();
+        let kinds_ref: Vec<&str> = kinds.iter().map(|s| s.as_str()).collect();
+        let wait = Duration::from_millis(get_u64(&case, "wait_ms").unwrap_or(40));
+        hub.set_overtake(&kinds_ref, wait);
+        let scenario = get_str(&case, "scenario").unwrap_or("task").to_string();
+        let data2 = data.clone();
+        let ws2 = ws.clone();
+        rt.block_on(async move {
+            let server = crate::srv::Server::start(data2, ws2, None, false).await;
+            let base = server.base.clone();
+            let client = reqwest::Client::new();
+            match scenario.as_str() {
+                "task" => {
+                    let _ = client
+                        .post(format!("{base}/tasks"))
+                        .json(&json!({"tool": "bash", "args": {"command": "echo o1; echo e1 1>&2; sleep 0.05; echo o2; echo e2 1>&2"}}))
+                        .send()
+                        .await;
+                }
+                "task_cancel" => {
+                    if let Ok(r) = client
+                        .post(format!("{base}/tasks"))
+                        .json(&json!({"tool": "bash", "args": {"command": "echo o1; echo e1 1>&2; sleep 5"}}))
+                        .send()
+                        .await
+                    {
+                        if let Ok(v) = r.json::<Value>().await {
+                            let id = v["task_id"].as_str().unwrap_or("").to_string();
+                            tokio::time::sleep(Duration::from_millis(150)).await;
+                            let _ = client
+                                .post(format!("{base}/tasks/{id}/cancel"))
+                                .json(&json!({"reason": "verif"}))
+                                .send()
+                                .await;
+                        }
+                    }
+                }
+                "session" => {
+                    if let Ok(r) = client.post(format!("{base}/sessions")).send().await {
+                        if let Ok(v) = r.json::<Value>().await {
+                            let id = v["session_id"].as_str().unwrap_or("").to_string();
+                            let _ = client
+                                .post(format!("{base}/sessions/{id}/input"))
+                                .json(&json!({"input": json!({"tool": "bash", "args": {"command": "echo hi; echo err 1>&2"}}).to_string()}))
+                                .send()
+                                .await;
+                        }
+                    }
+                }
+                _ => {
+                    // thread: two messages posted concurrently, each starting a tool run
+                    let ensure: Value = client
+                        .post(format!("{base}/threads/ensure"))
+                        .send()
+                        .await
+                        .unwrap()
+                        .json()
+                        .await
+                        .unwrap_or(Value::Null);
+                    let tid = ensure["thread_id"].as_str().unwrap_or("").to_string();
+                    let mut js = Vec::new();
+                    for k in 0..2 {
+                        let client = client.clone();
+                        let url = format!("{base}/threads/{tid}/messages");
+                        js.push(tokio::spawn(async move {
+                            let _ = client
+                                .post(url)
+                                .json(&json!({"content": json!({"tool": "write", "args": {"path": format!("o{k}.txt"), "content": "x"}}).to_string()}))
+                                .send()
+                                .await;
+                        }));
+                    }
+                    for j in js {
+                        let _ = j.await;
+                    }
+                }
+            }
+            // drain
+            tokio::time::sleep(Duration::from_millis(100)).await;
+            server.stop().await;
+        });
+        let mut last = 0u64;
+        let mut stable = 0;
+        for _ in 0..600 {
+            let len = std::fs::metadata(crate::store::log_path(&data)).map(|m| m.len()).unwrap_or(0);
+            if len == last && len > 0 {
+                stable += 1;
+                if stable >= 12 {
+                    break;
+                }
+            } else {
+                stable = 0;
+                last = len;
+            }
+            std::thread::sleep(Duration::from_millis(25));
+        }
+        let overtaken = hub.end_overtake();
+        let trace: Vec<Value> = hub
+            .take_trace()
+            .into_iter()
+            .filter(|r| matches!(r["ev"].as_str(), Some("log.flushed")))
+            .collect();
+        let mut names: HashMap<String, String> = HashMap::new();
+        let trace: Vec<Value> = trace
+            .into_iter()
+            .map(|mut r| {
+                if let Some(s) = r.get("stream").and_then(|s| s.as_str()).map(str::to_string) {
+                    let n = names.len();
+                    let name = names.entry(s).or_insert_with(|| format!("X{n}")).clone();
+                    r["stream"] = json!(name);
+                }
+                if let Some(o) = r.as_object_mut() {
+                    o.remove("id");
+                }
+                r
+            })
+            .collect();
+        let summary = log_summary(&data);
+        out.write(&json!({"id": case["id"], "summary": summary, "trace": trace, "overtaken": overtaken}));
         let _ = std::fs::remove_dir_all(&root);
     }
 }
